@@ -72,7 +72,7 @@ void h_tick(void) {
         V_POST("C14.tick-ends-session: inactivity deadline reached -> engine idle", mp->current_state == 0);
         V_POST("C14.tick-clears-charge: charge counter and its deadline cleared", ms->ctc == 0 && ms->charge_timeout_ts == 0);
         V_POST("C14.tick-deadline-cleared", ms->inactive_timeout_ts == 0);
-        V_POST("C14.tick-empties-table: session table emptied", sessions == NULL || (v_st_size(&tb) == 0 && tb.count == 0));
+        V_POST("C14,C12.tick-empties-table: 30 s without any frame - the tick empties the session table (whatever state the engine is in)", sessions == NULL || (v_st_size(&tb) == 0 && tb.count == 0));
         V_CANARY("inactive");
     } else if (mapping != NULL) {
         V_POST("C14.tick-otherwise-keeps-state: no deadline, no state change", mp->current_state == in.map_state &&
